@@ -4,8 +4,8 @@
    abs_content/abs_pos/abs_h: the byte sequence and cursor a handle state stands for. *)
 From GL Require Import Common.Bytes Io.IoSpec Io.IoImpl Io.IoSys Io.IoReadFacts Io.IoRefine Io.IoTheorems.
 
-(* Every disciplined history (a positioning op or flush between a read and a following write and
-   between a write and a following read) on a freshly opened handle, in every mode, on a file of
+(* Every disciplined history (a positioning op or flush between a read and a following write; a
+   read after a write needs nothing) on a freshly opened handle, in every mode, on a file of
    any size, under ANY chunking of the reads: each operation returns what the cursor model returns
    and the state keeps standing for the model's contents and cursor.  (No "\r" in the file or the
    written strings; no exponent part next to a "*n" read.) *)
@@ -32,12 +32,12 @@ Print Assumptions io_refines_crlf.
 
 (* One step from any reachable state (the invariant), any operation the discipline allows. *)
 Theorem io_step_refines : forall (ch : Z -> Z -> Z -> Z) disk h l l' o d' h' r c' s' r',
-  Inv disk h -> (is_LWrite l = false -> pending h = []) ->
+  Inv disk h -> (l = LNone -> pending h = []) ->
   disc1_step l o = Some l' ->
   istep ch disk h o = (d', h', r) ->
   sstep true (abs_content disk h) (abs_h disk h) o = (c', s', r') ->
   r' <> RUnsupported ->
-  Inv d' h' /\ (is_LWrite l' = false -> pending h' = []) /\
+  Inv d' h' /\ (l' = LNone -> pending h' = []) /\
   c' = abs_content d' h' /\ s' = abs_h d' h' /\ r = r'.
 Proof. exact step_sim. Qed.
 Print Assumptions io_step_refines.
@@ -131,13 +131,3 @@ Theorem io_refines_cr_refuted :
     ~ refines_on ch_full m init ops.
 Proof. exact io_refines_cr_refuted_lemma. Qed.
 Print Assumptions io_refines_cr_refuted.
-
-(* The discipline is needed (ISO C leaves this undefined; not a defect): a read straight after a
-   buffered write does not see the pending bytes. *)
-Theorem io_refines_needs_discipline :
-  exists m init ops,
-    cr_free init = true /\ forallb op_cr_free ops = true /\
-    supported (spec_results false (fst (s_open m init)) (snd (s_open m init)) ops) = true /\
-    ~ refines_on ch_full m init ops.
-Proof. exact io_refines_needs_discipline_lemma. Qed.
-Print Assumptions io_refines_needs_discipline.
